@@ -15,7 +15,7 @@ import z3
 from .. import quat, solve, stubs, sym
 from ..sarr import NpProxy, SArr, patched, sarr
 from ..sym import R, SymBool, real
-from .common import all_eq, eq, np_installed, pydrex_modules, sample
+from .common import all_eq, eq, np_installed, pydrex_modules, sample, only_path
 
 TIMEOUT_MS = {"quick": 60000, "thorough": 300000}
 PAIRS = [("X", "Y"), ("X", "Z"), ("Y", "X"), ("Y", "Z"), ("Z", "X"), ("Z", "Y")]
@@ -289,7 +289,7 @@ def t_strain_increment(sess):
 
     with np_installed(utils, proxy=proxy):
         paths, _ = sym.explore(fn)
-    p = paths[0]
+    p = only_path(sess, paths)
     dt, L, out, apps = p.value
     sess.satisfiable("strain increment: reach", p.pc)
     sess.prove("strain increment: exactly one eigenvalue computation", p.pc, z3.BoolVal(len(apps) == 1))
